@@ -169,3 +169,67 @@ func (cp *CorpusPkg) AllFiles() []int {
 	}
 	return out
 }
+
+// CorpusIndex is the directory-level view of the corpus (names and file
+// lists), available without type-checking anything. Run generation works on
+// the index, so a worker loads only the packages its runs visit.
+type CorpusIndex struct {
+	Names []string
+	Files map[string][]string
+}
+
+func BuildIndex(repo string, extra map[string]string) (*CorpusIndex, error) {
+	dirs, err := corpusDirs(repo)
+	if err != nil {
+		return nil, err
+	}
+	for k, v := range extra {
+		dirs[k] = v
+	}
+	ix := &CorpusIndex{Files: map[string][]string{}}
+	for n, d := range dirs {
+		gos, _ := filepath.Glob(filepath.Join(d, "*.go"))
+		var fs []string
+		for _, g := range gos {
+			b := filepath.Base(g)
+			if strings.HasSuffix(b, "_test.go") {
+				continue
+			}
+			fs = append(fs, b)
+		}
+		sort.Strings(fs)
+		if len(fs) == 0 {
+			continue
+		}
+		ix.Names = append(ix.Names, n)
+		ix.Files[n] = fs
+	}
+	sort.Strings(ix.Names)
+	return ix, nil
+}
+
+// AllFiles is the identity file order of package n.
+func (ix *CorpusIndex) AllFiles(n string) []int {
+	out := make([]int, len(ix.Files[n]))
+	for i := range out {
+		out[i] = i
+	}
+	return out
+}
+
+// Verify checks that a loaded corpus agrees with the index.
+func (ix *CorpusIndex) Verify(c *Corpus) error {
+	for _, n := range c.Names {
+		cp := c.Pkgs[n]
+		want := ix.Files[n]
+		if len(want) != len(cp.FileNames) {
+			return fmt.Errorf("corpus index disagrees with loader for %s: %v vs %v", n, want, cp.FileNames)
+		}
+		for i := range want {
+			if want[i] != cp.FileNames[i] {
+				return fmt.Errorf("corpus index disagrees with loader for %s: %v vs %v", n, want, cp.FileNames)
+			}
+		}
+	}
+	return nil
+}
